@@ -2,7 +2,7 @@
 import json, os
 from vlib.core import *
 
-RULESETS = {"C11": {"I1", "I2", "I3", "I4", "I5", "PANIC"}, "C10": {"E3", "K2"}, "C08": {"K2", "K3", "K4"}}
+RULESETS = {"C11": {"I1", "I2", "I3", "I4", "I5", "PANIC"}, "C10": {"E3", "K2", "PANIC"}, "C08": {"K2", "K3", "K4", "PANIC"}}
 
 
 def table(vd, tag):
